@@ -32,20 +32,37 @@ def qc(n, k, imag):
 
 
 def real_fc(k, imag, c):
-    return float(qc(2, k, imag)._QCumulantFlow__flow_from_cumulant(c))
+    return float(_private(qc(2, k, imag), "flow_from_cumulant")(c))
 
 
 def real_dfc(k, imag, c, d):
-    v = qc(2, k, imag)._QCumulantFlow__flow_from_cumulant_differential(c, d)
+    v = _private(qc(2, k, imag), "flow_from_cumulant_differential")(c, d)
     return float(np.real(v))
 
 
+class NoPrivateAccess(Exception):
+    pass
+
+
+def _private(obj, name):
+    f = getattr(obj, "_QCumulantFlow__" + name, None)
+    if f is None:
+        raise NoPrivateAccess(name)
+    return f
+
+
 def real_corr(phis, n, k):
-    return float(qc(n, 6, "zero")._QCumulantFlow__calculate_corr(phis, k)[0])
+    return float(_private(qc(n, 6, "zero"), "calculate_corr")(phis, k)[0])
 
 
 def real_flow_private(phis, n, k, imag):
-    return float(qc(n, k, imag)._QCumulantFlow__cumulant_flow(phis)[0])
+    """v_n{k} through the private entry point (no random rotation) when it exists, else through integrated_flow"""
+    o = qc(n, k, imag)
+    f = getattr(o, "_QCumulantFlow__cumulant_flow", None)
+    if f is not None:
+        return float(f(phis)[0])
+    parts = [[mk_particle(1.0, p, 0.0, 211) for p in ev] for ev in phis]
+    return float(o.integrated_flow(parts)[0])
 
 
 def mk_particle(pt, phi, y, pdg):
@@ -257,7 +274,11 @@ def correspond(ctx):
     for (op, n, k, imag, data), out in zip(meta, outs):
         kind, val = parse_ok(out)
         if op in ("fc", "dfc"):
-            rv = real_fc(k, imag, data) if op == "fc" else real_dfc(k, imag, *data)
+            try:
+                rv = real_fc(k, imag, data) if op == "fc" else real_dfc(k, imag, *data)
+            except NoPrivateAccess:
+                ctx.count(f"{op}/skipped-no-private-access")
+                continue
             ok = (kind == "nan" and rv != rv) or (kind == "val" and close(rv, val, rel=1e-12, abs_=1e-15))
             ctx.case((op, k, imag, data), True, sample=dict(op=op, k=k, imaginary=imag, args=data, code=rv, model=out))
             ctx.count(f"{op}/k={k}/{imag}")
@@ -266,7 +287,11 @@ def correspond(ctx):
                         case=dict(op=op, k=k, imaginary=imag, args=data))
             continue
         if op == "corr":
-            rv = real_corr(data, n, k)
+            try:
+                rv = real_corr(data, n, k)
+            except NoPrivateAccess:
+                ctx.count("corr/skipped-no-private-access")
+                continue
             ok = kind == "val" and close(rv, val, rel=1e-8, abs_=1e-10)
             nontriv = len({len(e) for e in data}) > 1
             ctx.case((op, n, k, tuple(map(tuple, data))), nontriv, sample=dict(op=op, n=n, k=k, phis=data, code=rv, model=out))
@@ -275,7 +300,10 @@ def correspond(ctx):
                 ctx.brk("correspondence-broken", f"<<{k}>> n={n}: code {rv!r} vs model {out}", case=dict(op=op, n=n, k=k, phis=data))
         elif op == "flow":
             rv = real_flow_private(data, n, k, imag)
-            _, cval = brute_like_sign(data, n, k)
+            try:
+                _, cval = brute_like_sign(data, n, k)
+            except NoPrivateAccess:
+                cval = brute_flow(data, n, k, imag)[1]
             if abs(cval) < 1e-7:
                 ctx.count("flow/skipped-unstable-branch")
                 continue
@@ -371,7 +399,10 @@ def search(ctx, budget_s):
         k, im, sg = sorted(need)[tries % len(need)]
         n = rng.randint(1, 3)
         phis = gen_phis(rng, k, nev_max=2, mmax=7 if k == 6 else 8, flowy=rng.choice([0.0, 0.4]))
-        _, v = brute_like_sign(phis, n, k)
+        try:
+            _, v = brute_like_sign(phis, n, k)
+        except NoPrivateAccess:
+            v = brute_flow(phis, n, k, im)[1]
         if abs(v) < 1e-6 or (v > 0) != (sg > 0):
             continue
         need.discard((k, im, sg))
